@@ -329,3 +329,107 @@ pub fn replay_conv(rep: &mut Report, rec: &J) {
 	rep.sample(997, n, || json!({"doc": show(&cps_to_string(&rec["w"]).unwrap()), "type": shape_name(&rec["T"]), "expected": rec["err"]}));
 	let _ = project;
 }
+
+// ------------------------------------------------------------------------- impl -> spec
+
+fn shape_json(name: &str) -> J {
+	// "vec(opt(box(num)))" -> ["vec", ["opt", ["box", ["num"]]]]
+	match name.find('(') {
+		None => json!([name]),
+		Some(i) => json!([&name[..i], shape_json(&name[i + 1..name.len() - 1])]),
+	}
+}
+
+const SHAPES: [&str; 15] = ["unit", "bool", "num", "str", "vec(bool)", "vec(num)", "vec(vec(num))", "map(num)", "map(vec(num))", "vec(map(num))", "opt(num)", "box(num)",
+	"vec(opt(box(num)))", "map(opt(vec(str)))", "map(map(unit))"];
+
+/// a document that conforms to `shape`, with (sometimes) one wrong-kind value planted somewhere
+fn conforming(rng: &mut Rng, shape: &str, plant: &mut bool) -> String {
+	if *plant && rng.chance(1, 6) {
+		*plant = false;
+		return rng.pick(&["null", "true", "7", "\"s\"", "[]", "{}", "[1]", "{\"k\":null}"]).to_string();
+	}
+	let inner = |s: &str| s[s.find('(').unwrap() + 1..s.len() - 1].to_string();
+	if shape.starts_with("vec(") {
+		let n = rng.below(4);
+		let items: Vec<String> = (0..n).map(|_| conforming(rng, &inner(shape), plant)).collect();
+		format!("[ {} ]", items.join(" , "))
+	} else if shape.starts_with("map(") {
+		let n = rng.below(4);
+		let items: Vec<String> = (0..n).map(|i| format!("\"{}\": {}", ["a", "b", "a", "\u{e9}"][i % 4], conforming(rng, &inner(shape), plant))).collect();
+		format!("{{{}}}", items.join(","))
+	} else if shape.starts_with("opt(") {
+		if rng.chance(1, 3) { "null".into() } else { conforming(rng, &inner(shape), plant) }
+	} else if shape.starts_with("box(") {
+		conforming(rng, &inner(shape), plant)
+	} else {
+		match shape {
+			"unit" => "null".into(),
+			"bool" => rng.pick(&["true", "false"]).to_string(),
+			"num" => rng.pick(&["0", "-1.5e3", "12"]).to_string(),
+			_ => rng.pick(&["\"\"", "\"x\\u00e9\""]).to_string(),
+		}
+	}
+}
+
+pub fn record(args: &Args) {
+	let n = args.num("n", 150);
+	let out = args.get("out").unwrap_or_else(|| tool_error("record-nav: --out required"));
+	let mut rng = Rng::new(seed() ^ 0x4a7);
+	let g = crate::gen::DocGen::new();
+	let mut lines: Vec<J> = vec![];
+	for i in 0..n {
+		if i % 2 == 0 {
+			let text = g.doc(&mut rng, 1 + i % 4);
+			let (v, cm) = match Value::parse_str(&text) {
+				Ok(x) => x,
+				Err(_) => continue,
+			};
+			let count = v.traverse().count();
+			let mut frags = vec![];
+			for k in 0..count {
+				match v.get_fragment(k) {
+					Ok(f) => frags.push(frag_brief(&f, cm.get(k).map(|e| e.volume).unwrap_or(0))),
+					Err(e) => frags.push(json!({"fk": "error", "rem": e})),
+				}
+			}
+			let past_end: Vec<J> = (0..3).map(|d| match v.get_fragment(count + d) { Err(e) => json!(e), Ok(_) => json!("fragment") }).collect();
+			let mut containers = vec![];
+			for (k, f) in v.traverse() {
+				if let FragmentRef::Value(x) = f {
+					match x {
+						Value::Array(a) => containers.push(json!({"at": k, "t": "arr", "items": a.iter_mapped(&cm, k).map(|m| m.offset).collect::<Vec<_>>()})),
+						Value::Object(o) => containers.push(json!({"at": k, "t": "obj", "entries": o.iter_mapped(&cm, k).map(|m| json!([m.offset, m.value.key.offset, m.value.value.offset])).collect::<Vec<_>>(),
+							"keys": o.iter().map(|e| str_to_cps(e.key.as_str())).collect::<Vec<_>>()})),
+						_ => (),
+					}
+				}
+			}
+			lines.push(json!({"ev": "nav", "v": project(&v), "n": count, "volume": v.volume(), "frags": frags, "containers": containers, "past_end": past_end}));
+		} else {
+			let shape = *rng.pick(&SHAPES);
+			let mut plant = rng.chance(2, 3);
+			let text = conforming(&mut rng, shape, &mut plant);
+			let (v, cm) = match Value::parse_str(&text) {
+				Ok(x) => x,
+				Err(_) => continue,
+			};
+			VISITS.with(|x| x.borrow_mut().clear());
+			let r = match guarded(|| convert(shape, &v, &cm)) {
+				Ok(Some(r)) => r,
+				_ => continue,
+			};
+			let result = match &r {
+				Ok(()) => json!([-1]),
+				Err(e) => json!([e.offset, e.found.map(kind_name), e.expected.map(|s| s.as_disjunction().to_string())]),
+			};
+			lines.push(json!({"ev": "conv", "v": project(&v), "T": shape_json(shape), "result": result, "text": text}));
+		}
+	}
+	use std::io::Write;
+	let mut f = std::fs::File::create(out).unwrap_or_else(|e| tool_error(&format!("create {out}: {e}")));
+	for l in &lines {
+		writeln!(f, "{}", l).unwrap();
+	}
+	println!("SUMMARY {}", json!({"events": lines.len(), "samples": lines.iter().filter(|l| l["ev"] == "conv").take(2).collect::<Vec<_>>()}));
+}
